@@ -1,5 +1,5 @@
 //! C08 — paged memory is a byte-addressed array with independent clones.
-use crate::explore::history::{explore, Subject};
+use crate::explore::history::{explore_traced, Subject};
 use crate::report::{Acc, Describe};
 use crate::util::{guarded, panic_class};
 use crate::{Ctx, Prop};
@@ -320,6 +320,9 @@ impl<V: TV> Subject for Sub<V> {
             }
         }
     }
+    fn case_json(&self, hist: &[Op], op: Option<&Op>) -> Value {
+        self.hist_json(hist, op)
+    }
     fn op_json(&self, op: &Op) -> Value {
         match op {
             Op::Store { slot, a, w } => json!(["store", slot, a, w]),
@@ -338,13 +341,13 @@ fn op_parse(v: &Value) -> Op {
     }
 }
 
-fn run_cfg<V: TV>(endian: Endian, backed: bool, tier_thorough: bool, acc: &mut Acc) {
+fn run_cfg<V: TV>(endian: Endian, backed: bool, tier_thorough: bool, acc: &mut Acc, trace: Option<&str>) {
     // quick: full alphabet to depth 2, tiny alphabet to depth 3
     // thorough: full alphabet to depth 3, reduced alphabet to depth 4
     let (d_red, d_full, red_level) = if tier_thorough { (4, 3, 1) } else { (3, 2, 0) };
-    let a = explore(Sub::<V> { endian: endian.clone(), backed, level: 2, _v: PhantomData }, Some(d_full), 2);
+    let a = explore_traced(Sub::<V> { endian: endian.clone(), backed, level: 2, _v: PhantomData }, Some(d_full), 2, trace);
     acc.merge(a);
-    let a = explore(Sub::<V> { endian, backed, level: red_level, _v: PhantomData }, Some(d_red), 2);
+    let a = explore_traced(Sub::<V> { endian, backed, level: red_level, _v: PhantomData }, Some(d_red), 2, trace);
     acc.merge(a);
     acc.max("max_depth_full_alphabet", d_full as u64);
     acc.max("max_depth_reduced_alphabet", d_red as u64);
@@ -358,9 +361,9 @@ fn run(ctx: &Ctx) -> Acc {
     let endian = if ctx.shard & 1 == 0 { Endian::Little } else { Endian::Big };
     let backed = ctx.shard & 2 != 0;
     if ctx.shard & 4 == 0 {
-        run_cfg::<il::Constant>(endian, backed, ctx.tier.thorough(), &mut acc);
+        run_cfg::<il::Constant>(endian, backed, ctx.tier.thorough(), &mut acc, ctx.trace_path.as_deref());
     } else {
-        run_cfg::<il::Expression>(endian, backed, ctx.tier.thorough(), &mut acc);
+        run_cfg::<il::Expression>(endian, backed, ctx.tier.thorough(), &mut acc, ctx.trace_path.as_deref());
     }
     acc.count("traces", acc.get("states"));
     if ctx.shard == 0 {
